@@ -5,6 +5,8 @@ import (
 	"iter"
 	"math"
 	"slices"
+	"strconv"
+	"strings"
 	"sync/atomic"
 
 	"reduction.dev/reduction/dkv/fields"
@@ -29,9 +31,36 @@ func NewTableWriter(fs storage.FileSystem, id int64) *TableWriter {
 	return &TableWriter{fs: fs, id: atomicNum}
 }
 
+// SkipTo makes the writer number its next table at least id. A database restored
+// from a checkpoint uses it to continue after the tables the checkpoint
+// references instead of reusing, and overwriting, their file names.
+func (c *TableWriter) SkipTo(id int64) {
+	for {
+		cur := c.id.Load()
+		if cur >= id || c.id.CompareAndSwap(cur, id) {
+			return
+		}
+	}
+}
+
+// TableFileName is the name of the table file with the given number.
+func TableFileName(id int64) string {
+	return fmt.Sprintf("%06d.sst", id)
+}
+
+// TableFileID returns the number in a table file name written by a TableWriter.
+func TableFileID(name string) (id int64, ok bool) {
+	numeral, isTable := strings.CutSuffix(name, ".sst")
+	if !isTable {
+		return 0, false
+	}
+	id, err := strconv.ParseInt(numeral, 10, 64)
+	return id, err == nil && id >= 0
+}
+
 func (c *TableWriter) Write(entries iter.Seq[kv.Entry]) (*Table, error) {
 	reservedNum := c.id.Add(1) - 1
-	f := c.fs.New(fmt.Sprintf("%06d.sst", reservedNum))
+	f := c.fs.New(TableFileName(reservedNum))
 
 	table := NewTable(f)
 	for e := range entries {
